@@ -1043,6 +1043,11 @@ impl<C: CellType> OptRebuild<'_, C> {
     ) -> HashMap<isize, Expr<C>> {
         let mut linear = HashMap::new();
         for var in vars {
+            if sub_state.written.contains_key(&var) {
+                // The pending operations refer to the value after the already emitted
+                // writes of this iteration, not to the value at the iteration start.
+                continue;
+            }
             if let Some(complete) = sub_state.get(var) {
                 if let Some(inc) = complete.inc_of(var) {
                     if inc.variables().all(|x| constant.contains(&x)) {
